@@ -41,16 +41,17 @@ def main(argv=None):
     nsched = max(1, int((4 if run.tier == "quick" else 12) * run.scale))
     r = random.Random(core.derive(run.seed, PROP, "sids"))
     # distinct hash classes first
-    sids = []
     pool_sids = list(range(N_SIDS))
     r.shuffle(pool_sids)
+    # distinct hash classes first, then the remaining schedule ids
+    first, rest, seen_cls = [], [], set()
     for s in pool_sids:
-        if len(sids) >= nsched:
-            break
-        if (s % grid.N_HASH_CLASSES) not in {x % grid.N_HASH_CLASSES
-                                             for x in sids} or len(
-                sids) >= grid.N_HASH_CLASSES:
-            sids.append(s)
+        if s % grid.N_HASH_CLASSES not in seen_cls:
+            seen_cls.add(s % grid.N_HASH_CLASSES)
+            first.append(s)
+        else:
+            rest.append(s)
+    sids = (first + rest)[:nsched]
     units = []
     ntrees = {}
     for n in range(2, nmax + 1):
@@ -60,6 +61,9 @@ def main(argv=None):
         for s in (sids if n < 6 else sids[: max(2, len(sids) // 2)]):
             for lo in range(0, len(ts), BATCH):
                 u = sched(s)
+                if n >= 6:
+                    u["naming"] = 0   # six-event trees: letters only (the
+                    #                   naming grid is soaked for n <= 5)
                 u.update(kind="c06", n=n,
                          indices=list(range(lo, min(lo + BATCH, len(ts)))))
                 units.append(u)
